@@ -410,7 +410,8 @@ attribute [local irreducible] Ctx.parse Parser.detectUnit inputLoop SCPI_Input_l
 theorem fitsPath_refines (c0 : CC) (hi : Inv c0) (data : Bytes) (hd : data ≠ [])
     (hov : ¬ data.length + 1 > (toM c0).bufLen - (toM c0).position) :
     Ctx.input (toM c0) data = emit (toM (fitsPath c0 (some data) data.length).1) (.input (fitsPath c0 (some data) data.length).2) ∧
-    (fitsPath c0 (some data) data.length).1.ub = false ∧ (fitsPath c0 (some data) data.length).1.outOfFuel = false := by
+    (fitsPath c0 (some data) data.length).1.ub = false ∧ (fitsPath c0 (some data) data.length).1.outOfFuel = false ∧
+    Inv (fitsPath c0 (some data) data.length).1 := by
   obtain ⟨w1, w2, w3⟩ := hi.wf
   simp only [toM_buf, toM_position, toM_bufLen] at w1 w2
   have hpos := hi.pos0
@@ -457,7 +458,7 @@ theorem fitsPath_refines (c0 : CC) (hi : Inv c0) (data : Bytes) (hd : data ≠ [
     rw [hp2]; show _ = c0.buffer_position.toNat + data.length + 2; omega
   have h1 := hL.1
   rw [hc2, Int.toNat_zero] at h1
-  refine ⟨?_, hL.2.ub, hL.2.oof⟩
+  refine ⟨?_, hL.2.ub, hL.2.oof, hL.2⟩
   rw [← hfu, ← h1]
   rfl
 
@@ -465,22 +466,11 @@ theorem inv_chk {cc : CC} (hi : Inv cc) {b : Bool} (hb : b = true) : Inv (cc.chk
   subst hb; exact hi
 
 attribute [local irreducible] Ctx.parse Parser.detectUnit inputLoop SCPI_Input_loop1 in
-/-- the text of the generated SCPI_Input on the path of a chunk that fits -/
-theorem input_fits_eq (cc : CC) (data : Option Bytes) (len : Int) (h0 : (len == 0) = false)
-    (hov : ¬ len > wrapS32 (wrapU64 (cc.buffer_length - cc.buffer_position)) - 1) :
-    SCPI_Input detectM parseM pushM cc data len =
-      fitsPath (cc.chk (decide ((-2147483648) ≤ wrapS32 (wrapU64 (cc.buffer_length - cc.buffer_position)) - 1 ∧
-        wrapS32 (wrapU64 (cc.buffer_length - cc.buffer_position)) - 1 ≤ 2147483647))) data len := by
-  simp only [SCPI_Input, h0, Bool.false_eq_true, if_false, hov, decide_false]
-  rfl
-
-/-- the chunk fits: it is copied behind the pending bytes, terminated, and the scan loop runs -/
-theorem input_fits_refines (cc : CC) (hi : Inv cc) (data : Bytes) (hd : data ≠ [])
+/-- the text of the generated SCPI_Input on the path of a chunk that fits: whatever spelling the overrun test has and whether or
+not it comes with a CHECK (`b`), the test fails, the CHECK passes, and the statements after it are `fitsPath` -/
+theorem input_fits_eq (cc : CC) (hi : Inv cc) (data : Bytes) (hd : data ≠ [])
     (hov : ¬ data.length + 1 > (toM cc).bufLen - (toM cc).position) :
-    Ctx.input (toM cc) data = emit (toM (SCPI_Input detectM parseM pushM cc (some data) data.length).1)
-        (.input (SCPI_Input detectM parseM pushM cc (some data) data.length).2) ∧
-    (SCPI_Input detectM parseM pushM cc (some data) data.length).1.ub = false ∧
-    (SCPI_Input detectM parseM pushM cc (some data) data.length).1.outOfFuel = false := by
+    ∃ b : Bool, b = true ∧ SCPI_Input detectM parseM pushM cc (some data) data.length = fitsPath (cc.chk b) (some data) data.length := by
   obtain ⟨w1, w2, w3⟩ := hi.wf
   simp only [toM_buf, toM_position, toM_bufLen] at w1 w2 hov
   have hpos := hi.pos0
@@ -488,12 +478,29 @@ theorem input_fits_refines (cc : CC) (hi : Inv cc) (data : Bytes) (hd : data ≠
   have hl0 := hi.len0
   have hd1 : data.length ≠ 0 := by intro h; exact hd (List.length_eq_zero_iff.mp h)
   have hd' : ((data.length : Int) == 0) = false := by simp [hd1]
-  have e1 : wrapS32 (wrapU64 (cc.buffer_length - cc.buffer_position)) = cc.buffer_length - cc.buffer_position := by
-    rw [wrapU64_of_range _ (by omega) (by omega), wrapS32_of_range _ (by omega) (by omega)]
-  rw [input_fits_eq cc (some data) data.length hd' (by rw [e1]; omega)]
-  have hb : decide ((-2147483648) ≤ wrapS32 (wrapU64 (cc.buffer_length - cc.buffer_position)) - 1 ∧
-        wrapS32 (wrapU64 (cc.buffer_length - cc.buffer_position)) - 1 ≤ 2147483647) = true := by
-    rw [e1, decide_eq_true_eq]; omega
+  have hdl : (0 : Int) ≤ data.length := Int.natCast_nonneg _
+  simp only [SCPI_Input, hd', Bool.false_eq_true, if_false]
+  split
+  · next hno =>
+    exfalso
+    simp (disch := omega) only [wrapU64_of_range, wrapS32_of_range, decide_eq_true_eq] at hno
+    omega
+  · first
+    | refine ⟨_, ?_, rfl⟩
+      simp (disch := omega) only [wrapU64_of_range, wrapS32_of_range, decide_eq_true_eq]
+      omega
+    | exact ⟨true, rfl, rfl⟩
+
+/-- the chunk fits: it is copied behind the pending bytes, terminated, and the scan loop runs -/
+theorem input_fits_refines (cc : CC) (hi : Inv cc) (data : Bytes) (hd : data ≠ [])
+    (hov : ¬ data.length + 1 > (toM cc).bufLen - (toM cc).position) :
+    Ctx.input (toM cc) data = emit (toM (SCPI_Input detectM parseM pushM cc (some data) data.length).1)
+        (.input (SCPI_Input detectM parseM pushM cc (some data) data.length).2) ∧
+    (SCPI_Input detectM parseM pushM cc (some data) data.length).1.ub = false ∧
+    (SCPI_Input detectM parseM pushM cc (some data) data.length).1.outOfFuel = false ∧
+    Inv (SCPI_Input detectM parseM pushM cc (some data) data.length).1 := by
+  obtain ⟨b, hb, hX⟩ := input_fits_eq cc hi data hd hov
+  rw [hX]
   have := fitsPath_refines _ (inv_chk hi hb) data hd (by rw [chk_toM]; exact hov)
   rw [chk_toM] at this
   exact this
@@ -511,7 +518,8 @@ theorem input_refines_inv (cc : CC) (hi : Inv cc) (data : Bytes) (hlen : data.le
   · by_cases hov : data.length + 1 > (toM cc).bufLen - (toM cc).position
     · have := input_overrun_refines cc hi data hd hlen hov
       exact ⟨this.1, this.2.1, this.2.2.1⟩
-    · exact input_fits_refines cc hi data hd hov
+    · have := input_fits_refines cc hi data hd hov
+      exact ⟨this.1, this.2.1, this.2.2.1⟩
 
 /-- the same from a well-formed hand-model context whose buffer length fits an `int`, whatever parser_state holds -/
 theorem input_refines (c : Ctx) (data : Bytes) (t ht : Int) (h : WF c) (hl : c.bufLen ≤ 2147483647)
@@ -523,5 +531,94 @@ theorem input_refines (c : Ctx) (data : Bytes) (t ht : Int) (h : WF c) (hl : c.b
   have := input_refines_inv (toC c t ht) (inv_toC c t ht h hl) data hlen
   rw [toM_toC] at this
   exact this
+
+/-! ### `Inv` after the call, sequences of calls -/
+
+theorem natCast_toNat_of_nonneg (x : Int) (h : 0 ≤ x) : ((x.toNat : Nat) : Int) = x := by omega
+
+attribute [local irreducible] Ctx.parse in
+theorem input_flush_inv (cc : CC) (hi : Inv cc) : Inv (SCPI_Input detectM parseM pushM cc (some []) 0).1 := by
+  have hr := input_flush_refines cc hi
+  have hw : WF (Ctx.input (toM cc) []) := Bounds.input_wf _ _ hi.wf
+  rw [hr.1] at hw
+  refine ⟨hr.2.1, hr.2.2, ?_, ?_, ?_, hw⟩
+  all_goals rw [input_flush_eq]
+  · exact Int.le_refl 0
+  · show 0 ≤ (parseM (storeNul cc) 0 _).1.buffer_length
+    rw [parseM_len]; exact Int.natCast_nonneg _
+  · show (parseM (storeNul cc) 0 _).1.buffer_length ≤ _
+    have hs := inv_storeNul hi
+    obtain ⟨w1, w2, w3⟩ := hi.wf
+    simp only [toM_buf, toM_position, toM_bufLen] at w1 w2
+    have hpos := hi.pos0
+    have hlm := hi.lenmax
+    have e1 : wrapS32 cc.buffer_position = cc.buffer_position := wrapS32_of_range _ (by omega) (by omega)
+    have := (Bounds.parse_frame (toM (storeNul cc)) 0 (wrapS32 (storeNul cc).buffer_position).toNat
+      (by rw [storeNul_pos, e1, toM_buf, storeNul_data, List.length_set]; omega) hs.wf.2.2).2.2.1
+    rw [parseM_len, Int.toNat_zero, this, toM_bufLen, storeNul_len]
+    have := hi.lenmax; have := hi.len0; omega
+
+theorem input_overrun_inv (cc : CC) (hi : Inv cc) (data : Bytes) (hd : data ≠ [])
+    (hlen : data.length ≤ 2147483647) (hov : data.length + 1 > (toM cc).bufLen - (toM cc).position) :
+    Inv (SCPI_Input detectM parseM pushM cc (some data) data.length).1 := by
+  have hr := input_overrun_refines cc hi data hd hlen hov
+  have hw : WF (Ctx.input (toM cc) data) := Bounds.input_wf _ _ hi.wf
+  rw [hr.1] at hw
+  obtain ⟨w1, w2, w3⟩ := hi.wf
+  simp only [toM_buf, toM_position, toM_bufLen] at w1 w2 hov
+  have hpos := hi.pos0
+  have hlm := hi.lenmax
+  have hl0 := hi.len0
+  have hd1 : data.length ≠ 0 := by intro h; exact hd (List.length_eq_zero_iff.mp h)
+  have hd' : ((data.length : Int) == 0) = false := by simp [hd1]
+  have hdl : (0 : Int) ≤ data.length := Int.natCast_nonneg _
+  refine ⟨hr.2.1, hr.2.2.1, ?_, ?_, ?_, hw⟩
+  all_goals
+    simp only [SCPI_Input, hd', Bool.false_eq_true, if_false]
+    simp (disch := omega) only [wrapU64_of_range, wrapS32_of_range, chk_data, chk_pos, chk_len]
+    split
+    · simp only [pushM, fromM, Bounds.pushError_position, Bounds.pushError_bufLen, toM_bufLen, toM_position]
+      omega
+    · next hno =>
+      exfalso
+      simp only [decide_eq_true_eq] at hno
+      omega
+
+/-- `Inv` is kept by every call -/
+theorem input_inv (cc : CC) (hi : Inv cc) (data : Bytes) (hlen : data.length ≤ 2147483647) :
+    Inv (SCPI_Input detectM parseM pushM cc (some data) data.length).1 := by
+  by_cases hd : data = []
+  · subst hd; exact input_flush_inv cc hi
+  · by_cases hov : data.length + 1 > (toM cc).bufLen - (toM cc).position
+    · exact input_overrun_inv cc hi data hd hlen hov
+    · exact (input_fits_refines cc hi data hd hov).2.2.2
+
+/-- one call of the generated SCPI_Input as the hand model counts it: the caller appends the return value to the ghost log -/
+def cstep (cc : CC) (d : Bytes) : CC :=
+  let R := SCPI_Input detectM parseM pushM cc (some d) d.length
+  fromM (emit (toM R.1) (.input R.2)) R.1
+
+theorem cstep_refines (cc : CC) (hi : Inv cc) (d : Bytes) (hlen : d.length ≤ 2147483647) :
+    toM (cstep cc d) = Ctx.input (toM cc) d ∧ Inv (cstep cc d) := by
+  have hr := input_refines_inv cc hi d hlen
+  have hI := input_inv cc hi d hlen
+  have ht : toM (cstep cc d) = Ctx.input (toM cc) d := by rw [hr.1]; exact toM_fromM _ _
+  refine ⟨ht, hI.ub, hI.oof, Int.natCast_nonneg _, Int.natCast_nonneg _, ?_, ?_⟩
+  · show (((toM (SCPI_Input detectM parseM pushM cc (some d) d.length).1).bufLen : Nat) : Int) ≤ _
+    have := hI.lenmax; have := hI.len0
+    rw [toM_bufLen]; omega
+  · rw [ht]; exact Bounds.input_wf _ _ hi.wf
+
+/-- a sequence of calls: the generated function, called chunk by chunk, is the hand model's fold -/
+theorem csteps_refine (chunks : List Bytes) : ∀ (cc : CC), Inv cc → (∀ d ∈ chunks, d.length ≤ 2147483647) →
+    toM (chunks.foldl cstep cc) = chunks.foldl Ctx.input (toM cc) ∧ Inv (chunks.foldl cstep cc) := by
+  induction chunks with
+  | nil => intro cc hi _; exact ⟨rfl, hi⟩
+  | cons d ds ih =>
+    intro cc hi hl
+    have h1 := cstep_refines cc hi d (hl d (List.mem_cons_self))
+    have h2 := ih (cstep cc d) h1.2 (fun x hx => hl x (List.mem_cons_of_mem _ hx))
+    rw [h1.1] at h2
+    exact h2
 
 end ScpiVerif.Lemmas.InputC
